@@ -126,6 +126,8 @@ def _child(case: dict[str, Any]) -> dict[str, Any]:
         "stopping.maximum_coverage": b.get("maxcov", 100),
         "stopping.maximum_search_time": 120,
         "search_algorithm.population": case["population"],
+        "stopping.maximum_test_execution_timeout": 120,
+        "stopping.test_execution_time_per_statement": 30,
     }
     with Session(CORPUS_DIR, case["module"], seed=case["seed"], algorithm=case["algo"], coverage_metrics=("BRANCH",),
                  maximum_iterations=b.get("iter", -1), overrides=overrides) as s:
